@@ -1,8 +1,11 @@
 package checks
 
 import (
+	"bytes"
 	"crypto/tls"
 	"crypto/x509"
+	"crypto/x509/pkix"
+	"encoding/asn1"
 	"encoding/json"
 	"fmt"
 	"math/big"
@@ -15,7 +18,6 @@ import (
 	"time"
 
 	"github.com/gr33nbl00d/caddy-revocation-validator/config"
-	"github.com/gr33nbl00d/caddy-revocation-validator/core/verifhook"
 	ocspchk "github.com/gr33nbl00d/caddy-revocation-validator/ocsp"
 	"github.com/muesli/cache2go"
 	"go.uber.org/zap"
@@ -26,6 +28,7 @@ import (
 	"verif/harness/pki"
 	"verif/harness/tlcrun"
 	"verif/harness/vk"
+	"verif/harness/world"
 )
 
 // OcspCfg is one element of CfgSpace of Ocsp.tla.
@@ -189,6 +192,9 @@ type ocspWorld struct {
 	lastNU   map[string]time.Time
 	answerN  int
 	claim    map[string]int // claimed status of unauthentic answers per cert
+	errBase  int            // first error status served by an "errStatus" responder (rotates afterwards)
+	errN     int
+	badReq   int // requests a real responder could not have answered (undecodable, or about another certificate)
 }
 
 func ocspPath(c string, i int) string { return fmt.Sprintf("/ocsp/%s/%d", c, i) }
@@ -197,6 +203,7 @@ func newOcspWorld(cfg OcspCfg, seed int64) *ocspWorld {
 	w := &ocspWorld{cfg: cfg, rng: rand.New(rand.NewSource(seed)), issuers: map[string]*pki.CA{}, siblings: map[string]*pki.CA{}, deleg: map[string]*pki.CA{}, delegNo: map[string]*pki.CA{},
 		leaves: map[string]*pki.Leaf{}, chains: map[string][][]*x509.Certificate{}, checkers: map[string]*ocspchk.OCSPRevocationChecker{}, lists: map[string][]string{},
 		lastLife: map[string]time.Duration{}, lastNU: map[string]time.Time{}, claim: map[string]int{}}
+	w.errBase = int(((seed % 5) + 5) % 5)
 	w.org = origin.New()
 	w.tlsSrv = httptest.NewTLSServer(http.HandlerFunc(func(rw http.ResponseWriter, r *http.Request) { rw.WriteHeader(500) }))
 	w.stranger = pki.NewCA(pki.CAOpts{Name: "Unrelated Stranger CA", Serial: 900})
@@ -239,7 +246,7 @@ func newOcspWorld(cfg OcspCfg, seed int64) *ocspWorld {
 		w.checkers[v] = ch
 	}
 	cache2go.Cache("ocsp_client").Flush()
-	verifhook.Set(func(site string, kv ...any) {
+	world.SetHandler(func(site string, kv ...any) {
 		if site == "ocsp.answer" && len(kv) >= 3 {
 			if d, ok := kv[2].(time.Duration); ok {
 				w.mu.Lock()
@@ -255,7 +262,7 @@ func newOcspWorld(cfg OcspCfg, seed int64) *ocspWorld {
 }
 
 func (w *ocspWorld) close() {
-	verifhook.Set(nil)
+	world.SetHandler(nil)
 	for _, ch := range w.checkers {
 		ch.Cleanup()
 	}
@@ -269,7 +276,7 @@ func (w *ocspWorld) install() {
 	for _, c := range []string{"cA", "cB"} {
 		for i, cl := range w.lists[c] {
 			c, cl := c, cl
-			w.org.Set(ocspPath(c, i+1), origin.Behaviour{Kind: "func", Func: func(req []byte) (int, []byte) { return w.respond(c, cl) }})
+			w.org.Set(ocspPath(c, i+1), origin.Behaviour{Kind: "func", Func: func(req []byte) (int, []byte) { return w.serve(c, cl, req) }})
 		}
 	}
 }
@@ -282,6 +289,53 @@ func (w *ocspWorld) nextUpdate() time.Time {
 		return time.Now().Add(time.Hour)
 	}
 	return time.Time{}
+}
+
+// malformedRequest, internalError, tryLater, sigRequired, unauthorized
+var ocspErrCodes = []int{1, 2, 3, 5, 6}
+
+// serve is what a responder does with a request: the classes that stand for real responder software decode it first and answer
+// only a request that names the certificate they are responsible for, as a real responder would.
+func (w *ocspWorld) serve(c, cl string, req []byte) (int, []byte) {
+	if authenticClasses[cl] {
+		if code := w.requestProblem(c, req); code != 0 {
+			w.mu.Lock()
+			w.badReq++
+			w.mu.Unlock()
+			return 200, pki.OCSPErrorResponse(code)
+		}
+	}
+	return w.respond(c, cl)
+}
+
+// requestProblem returns the OCSP error status a real responder would answer to this request body, 0 if it is a well-formed
+// request about certificate c under its issuer.
+func (w *ocspWorld) requestProblem(c string, raw []byte) int {
+	r, err := ocsp.ParseRequest(raw)
+	if err != nil {
+		return 1
+	}
+	if !r.HashAlgorithm.Available() {
+		return 2
+	}
+	iss := w.issuers[c].Cert
+	var spki struct {
+		Algorithm pkix.AlgorithmIdentifier
+		PublicKey asn1.BitString
+	}
+	if _, err := asn1.Unmarshal(iss.RawSubjectPublicKeyInfo, &spki); err != nil {
+		return 2
+	}
+	h := r.HashAlgorithm.New()
+	h.Write(iss.RawSubject)
+	nameHash := h.Sum(nil)
+	h.Reset()
+	h.Write(spki.PublicKey.RightAlign())
+	keyHash := h.Sum(nil)
+	if !bytes.Equal(nameHash, r.IssuerNameHash) || !bytes.Equal(keyHash, r.IssuerKeyHash) || r.SerialNumber == nil || r.SerialNumber.Cmp(w.leaves[c].Cert.SerialNumber) != 0 {
+		return 6
+	}
+	return 0
 }
 
 // respond produces the HTTP answer of a responder of class cl for certificate c.
@@ -327,7 +381,11 @@ func (w *ocspWorld) respond(c, cl string) (int, []byte) {
 	case "otherSerial":
 		return 200, mk(claim, iss, iss.Cert, false, big.NewInt(777))
 	case "errStatus":
-		return 200, pki.OCSPErrorResponse([]int{1, 2, 3, 5, 6}[w.rng.Intn(5)])
+		w.mu.Lock()
+		code := ocspErrCodes[(w.errBase+w.errN)%len(ocspErrCodes)]
+		w.errN++
+		w.mu.Unlock()
+		return 200, pki.OCSPErrorResponse(code)
 	case "http500":
 		return 500, []byte("internal server error\n")
 	case "garbage":
@@ -410,9 +468,12 @@ func (w *ocspWorld) tick() {
 
 // switchLists: the responders of c turn into the alternative behaviour list of the configuration.
 func (w *ocspWorld) switchLists(c string) {
-	if w.cfg.Alt != nil {
-		w.lists[c] = append([]string(nil), w.cfg.Alt[c]...)
+	// (a configuration without alternative lists switches back to its original lists, as in the specification)
+	alt := w.cfg.Alt
+	if alt == nil {
+		alt = w.cfg.Lists
 	}
+	w.lists[c] = append([]string(nil), alt[c]...)
 	w.install()
 }
 
